@@ -18,6 +18,7 @@ import JP.Typing
 import JP.Projection
 import JP.Surface
 import JP.Lex
+import JP.Lemmas.SyntaxGate
 open Lean JP
 
 namespace Drv
@@ -631,6 +632,9 @@ def handle (req : Json) : Except String Json := do
     let want : List Lex.CTok := (Surface.ptoksPath c.first).map Lex.CTok.tok ++
       (c.rest.map fun (u, p) => (if u then Lex.CTok.union else Lex.CTok.inter) :: (Surface.ptoksPath p).map Lex.CTok.tok).flatten
     pure (Json.mkObj [("text", .str (l2s text)), ("relex", back), ("ptoks", groupCooked want)])
+  | "syn.indextext" =>
+    let v ← getStr req "v"
+    pure (Json.mkObj [("shape", .bool (Lemmas.intShape v)), ("refused", .bool (Lemmas.indexTextRefused v)), ("rfc", .bool (Lemmas.rfcInt v))])
   | "lex.decode" =>
     let v ← getStr req "v"
     let q ← req.getObjValAs? String "q"
